@@ -193,10 +193,13 @@ class KStrSet(Kind):
 
 # A-git: `git status --porcelain` (v1) prints one line per path: two status characters
 # X and Y (either may be a blank), one blank, the path. Codes that can occur:
-PORCELAIN_CODES = " MADU?!"  # R/C (rename/copy) lines carry 'ORIG -> PATH' and are left out of the clause
+PORCELAIN_CODES = " MADU?!"  # R/C (rename/copy) lines carry 'ORIG -> PATH': clauses of their own below
 
 
-def _status_line_clause(X, Y):
+ARROW = z3.StringVal(" -> ")
+
+
+def _status_line_clause(X, Y, rename=False):
     XY = X + Y
 
     def fn(a, res, cx):
@@ -212,7 +215,18 @@ def _status_line_clause(X, Y):
             z3.Not(z3.Contains(path.t, z3.StringVal("\n"))),
             z3.Not(z3.Contains(path.t, z3.StringVal("\r"))),
         )
-        line = SStr(z3.Concat(z3.StringVal(XY + " "), path.t))
+        if rename:
+            # renamed/copied entry: "XY <orig path> -> <path>"; the file that now exists (and that a glob finds) is <path>
+            orig = V.sstr(f"ORIG_{X}{Y}".replace(" ", "_"))
+            cx.ghost["extra_inputs"][f"orig_on_line_{XY!r}"] = orig
+            pre = z3.And(pre, strmodels.first_nonws(orig.t), strmodels.last_nonws(orig.t), z3.Not(z3.Contains(orig.t, z3.StringVal("\n"))), z3.Not(z3.Contains(orig.t, z3.StringVal("\r"))), z3.Not(z3.Contains(orig.t, z3.StringVal(" "))))
+            line = SStr(z3.Concat(z3.StringVal(XY + " "), orig.t, ARROW, path.t))
+            # instance of the lemma proved as its own obligation (C11.status.lemma...): the first ' -> ' of the line is the separator
+            pre = z3.And(pre, z3.IndexOf(z3.Concat(orig.t, ARROW, path.t), ARROW, 0) == z3.Length(orig.t))
+        else:
+            # A-git: names containing blanks are printed quoted, so ' -> ' occurs in a line only as the rename separator
+            pre = z3.And(pre, z3.Not(z3.Contains(path.t, ARROW)))
+            line = SStr(z3.Concat(z3.StringVal(XY + " "), path.t))
         base = st.fork()
         base.assume(pre)
         n0 = len(base.pc)
@@ -245,6 +259,17 @@ for _X in PORCELAIN_CODES:
         # from the property: a path is reported iff it carries a pattern or is not merely untracked,
         # and it is reported under its own name
         c.ensures(f"C11.status.porcelain_line_{_nm}_reports_path_iff_dirty_or_required", _status_line_clause(_X, _Y))
+for _X in "RC":
+    for _Y in " MD":
+        _nm = (_X + _Y).replace(" ", "_")
+        # "renamed" is one of the states the property lists: the file at its new name is reported
+        c.ensures(f"C11.status.porcelain_rename_line_{_nm}_reports_the_new_path", _status_line_clause(_X, _Y, rename=True))
+def _arrow_lemma():
+    o, p = z3.String("lemma_orig"), z3.String("lemma_path")
+    return z3.Implies(z3.Not(z3.Contains(o, z3.StringVal(" "))), z3.IndexOf(z3.Concat(o, ARROW, p), ARROW, 0) == z3.Length(o))
+
+
+c.lemma("C11.status.lemma.first_arrow_of_a_rename_line_is_the_separator", _arrow_lemma)
 c.ensures("C11.status.parses_the_lines_of_the_status_output_itself", _status_lines_are_output_lines)
 c.ensures("C11.status.only_status_command", lambda a, res, cx: _vcs_names(cx) == ["status"])
 # a malformed line can only break the (non-porcelain) hg parser; never the git one
@@ -265,7 +290,8 @@ def _status_replayer(contract, ob, model_py, z3model=None):
         xy = eval(k[len("path_on_line_") :])
         path = model_py[k] or "A"
         req = set(model_py.get("required_files") or [])
-        line = f"{xy} {path}"
+        orig = model_py.get(f"orig_on_line_{xy!r}")
+        line = f"{xy} {orig or 'B'} -> {path}" if xy[0] in "RC" else f"{xy} {path}"
         saved = rv.sp.check_output
         rv.sp.check_output = lambda *a_, **k_: (line + "\n").encode("utf-8")
         try:
